@@ -235,6 +235,42 @@ def h_union_simplify_one(cname, n):
 
 
 @guard
+def h_union_simplify(cname, n):
+    """nested union: outer element i points at inner position j = outerindex[i]; elements of the selected inner content get the new tag and
+    their inner index shifted by base; every other element is untouched.  Inner union of symbolic length up to 70000 (index width boundaries)."""
+    sp = kspec.spec_by_name()[cname]
+    A = {a.name: a for a in sp.args}
+    h = Harness(cname, unwind=n + 4)
+    for nm in ('towhich', 'innerwhich', 'outerwhich', 'base', 'innerlen'):
+        h.scalar(nm, 'int64_t')
+    h.scalar('length', 'int64_t', n)
+    S = lambda k: h.scalars[k][0]
+    h.assume(S('towhich') >= 0, S('towhich') <= 127, S('innerwhich') >= 0, S('innerwhich') <= 127, S('outerwhich') >= 0, S('outerwhich') <= 127,
+             S('base') >= 0, S('base') <= 2 ** 40, S('innerlen') >= 1, S('innerlen') <= 70000)
+    h.arr('totags', A['totags'].ctype, n); h.arr('toindex', A['toindex'].ctype, n)
+    h.arr('outertags', A['outertags'].ctype, n, const=True); h.arr('outerindex', A['outerindex'].ctype, n, const=True)
+    h.arr('innertags', A['innertags'].ctype, S('innerlen'), const=True); h.arr('innerindex', A['innerindex'].ctype, S('innerlen'), const=True)
+    for i in range(n):
+        h.assume(h.init('outertags', i) >= 0, h.init('outerindex', i) >= 0, h.init('outerindex', i) < S('innerlen'))
+    h.kcall(cname, [('buf', 'totags'), ('buf', 'toindex'), ('buf', 'outertags'), ('buf', 'outerindex'), ('buf', 'innertags'), ('buf', 'innerindex'),
+                    'towhich', 'innerwhich', 'outerwhich', 'length', 'base'])
+
+    def oracle(io):
+        out = [('no error', io.err())]
+        for i in range(n):
+            j = io.x('outerindex', i)
+            hit = z3.And(io.x('outertags', i) == io.sc('outerwhich'), io.x('innertags', j) == io.sc('innerwhich'))
+            ii = io.x('innerindex', j)
+            fitsv = z3.And(ii >= 0, ii <= 2 ** 40)
+            out.append(('element %d of the selected inner content: tag renumbered' % i, z3.And(hit, io.y('totags', i) != io.sc('towhich'))))
+            out.append(('element %d of the selected inner content: inner index shifted by base' % i, z3.And(hit, fitsv, io.y('toindex', i) != ii + io.sc('base'))))
+            out.append(('element %d elsewhere: untouched' % i, z3.And(z3.Not(hit), z3.Or(io.y('totags', i) != io.x('totags', i), io.y('toindex', i) != io.x('toindex', i)))))
+        return out
+    tw = [('inner position beyond 255', h.init('outerindex', 0) > 255)]
+    return discharge(h, '%s n=%d' % (cname, n), oracle, tw, extra=dict(bounds=dict(n=n, innerlen=70000)))
+
+
+@guard
 def h_index_to_index64(cname, n):
     sp = kspec.spec_by_name()[cname]
     src = sp.args[1].ctype
@@ -272,6 +308,8 @@ def jobs(tier):
         js.append((h_indexed_simplify, (s.name, n, 2), 600))
     for s in K['awkward_UnionArray_simplify_one'].specs:
         js.append((h_union_simplify_one, (s.name, n), 600))
+    for s in K['awkward_UnionArray_simplify'].specs:
+        js.append((h_union_simplify, (s.name, n), 600))
     for s in K['awkward_Index_to_Index64'].specs:
         js.append((h_index_to_index64, (s.name, n + 1), 300))
     return js
